@@ -741,17 +741,29 @@ class FnTrans:
                 if mm:
                     c = mm.group(4) if mm.group(4).isdigit() else (mm.group(3) if mm.group(3).isdigit() and mm.group(2) == 'mul' else None)
                     if c is not None: s.sizedefs[s.lname(unq(mm.group(1)))] = (mm.group(2), int(c))
-        allocs = {}
+        allocs = {}; alloc_const = {}
         for bb, ls in blocks:
             for l in ls:
                 mm = re.match(r'(%[-\w$.]+) = (?:tail )?call .*@(malloc|calloc|realloc|_ZN5gdstk8allocateEm|_ZN5gdstk14allocate_clearEm|_ZN5gdstk10reallocateEPvm)\(', l)
-                if mm: allocs[mm.group(1)] = set()
+                if mm:
+                    allocs[mm.group(1)] = set()
+                    mk = re.search(r'\((?:i64 noundef |i64 )(?:1, i64 (?:noundef )?)?(\d+)\)', l[mm.end() - 1:])
+                    if mk: alloc_const[mm.group(1)] = int(mk.group(1))
         if allocs:
             for bb, ls in blocks:
                 for l in ls:
                     mm = re.match(r'%[-\w$.]+ = bitcast i8\* (%[-\w$.]+) to (.*)\*$', l)
                     if mm and mm.group(1) in allocs: allocs[mm.group(1)].add(mm.group(2))
             for v, tys in allocs.items():
+                if len(tys) > 1 and v in alloc_const:
+                    # one object of constant size viewed through several pointer types (inlined member copies): the struct type of exactly that size
+                    cand = []
+                    for ty in tys:
+                        try:
+                            t = s.m.ptype(Lexer(ty))
+                            if isinstance(t, Struct) and size_of(t) == alloc_const[v]: cand.append(ty)
+                        except (TypeError, SyntaxError): pass
+                    if len(cand) == 1: tys = {cand[0]}
                 if len(tys) == 1:
                     try:
                         t = s.m.ptype(Lexer(next(iter(tys))))
